@@ -130,6 +130,10 @@ func init() {
 			ro := c.mcHolds("GenBag", "GenBag_order.cfg", tlcOpts{})
 			oc, or := c.replay("engine", ro.cases, replayOpts{})
 			c.judge("engine", oc, or, func(cs, res map[string]J) string { in, _ := res["input"].(string); return in })
+			// partially bound witnesses whose inner variable is shared with the instances
+			rs := c.mcHolds("GenBag", "GenBag_share.cfg", tlcOpts{})
+			sc, sr := c.replay("engine", rs.cases, replayOpts{})
+			c.judge("engine", sc, sr, func(cs, res map[string]J) string { in, _ := res["input"].(string); return in })
 			c.engineTV(tvN(c), "bag")
 			c.exhaustive = true
 		},
